@@ -421,7 +421,7 @@ pub fn run(seed: u64, run: u64) -> Report {
     if cfg.res_range.0 >= 60 {
         probes.push("large_module".into());
     }
-    for f in ["unqualified_imports_share_a_name", "qualifier_used_by_two_imports", "odd_import_spelling", "examples_multi", "multi_module", "reference", "ranges_multi", "scope_multi_param", "rec", "recursive_declaration", "tags_annotation"] {
+    for f in ["qualifier_spelled_like_a_member", "unqualified_imports_share_a_name", "qualifier_used_by_two_imports", "odd_import_spelling", "examples_multi", "multi_module", "reference", "ranges_multi", "scope_multi_param", "rec", "recursive_declaration", "tags_annotation"] {
         if ast.features.contains(f) {
             probes.push(match f {
                 "reference" => "refs_present".to_string(),
